@@ -81,7 +81,11 @@ public:
    * @param pos The index of the token.
    * @return the token at position 'pos'.
    */
-  const std::string& getToken(size_t pos) const { return tokens_[pos]; }
+  const std::string& getToken(size_t pos) const
+  {
+    if (pos >= tokens_.size()) throw IndexOutOfBoundsException("StringTokenizer::getToken.", pos, 0, tokens_.size());
+    return tokens_[pos];
+  }
 
   /**
    * @brief Retrieve all tokens.
